@@ -791,6 +791,11 @@ LEAVES = [
           [("max_social_welfare", "best", "Option Rat"), ("argmax_social_welfare", "arg", "List Nat")], ("result", "Nat × Rat"),
           {"sat_profile.total_satisfaction(result)": "x.2", "result": "x.1"},
           wraps={"max_social_welfare": "(some {})"}, kinds={"max_social_welfare": "none"})),
+    # the per-voter arg-max loop of the popularity comparison (statement-level leaf); `x` = (index of the outcome, the voter's satisfaction)
+    ("C19", "voterLoop", None, None,
+     loop(COMP, "popularity_comparison", "enumerate(sats)", "voterLoop", "",
+          [("max_sat", "best", "Option Rat"), ("arg_max_sat", "arg", "List Nat")], ("(i, s)", "Nat × Rat"),
+          {"s": "x.2", "i": "x.1"}, wraps={"max_sat": "(some {})"}, kinds={"max_sat": "none"})),
     ("C19", "welfareImproves", "(first : Bool) (welfare best : Rat)", "Bool",
      test(COMP, "social_welfare_comparison", "max_social_welfare",
           {"max_social_welfare is None": "first", "social_welfare": "welfare", "max_social_welfare": "best"}, k=0, bools=("first",))),
@@ -808,6 +813,10 @@ LEAVES = [
     ("C06", "multiMultiplicity", "(count : Rat)", "Rat", whole(PROF, "MultiProfile.multiplicity", {"self[ballot]": "count"})),
     ("C06", "satListMultiplicity", "", "Rat", whole(SATP, "SatisfactionProfile.multiplicity", {})),
     ("C06", "satMultiMultiplicity", "(count : Rat)", "Rat", whole(SATP, "SatisfactionMultiProfile.multiplicity", {"self[sat]": "count"})),
+    # `approval_score` as a whole (statement-level leaf): start at 0, add the multiplicity of every ballot holding the project, return
+    ("C06", "approvalScoreFn", None, None,
+     funloop(APR, "AbstractApprovalProfile.approval_score", "self", "approvalScoreFn", "", [("approval_score", "score", "Rat")], ("ballot", "Bool × Rat"),
+             {"project in ballot": "x.1", "self.multiplicity(ballot)": "x.2"}, bools=("x.1",))),
     ("C06", "approvalScoreInit", "", "Rat", assign(APR, "AbstractApprovalProfile.approval_score", "approval_score", {}, k=0)),
     ("C06", "approves", "(inBallot : Bool)", "Bool",
      test(APR, "AbstractApprovalProfile.approval_score", "project in ballot", {"project in ballot": "inBallot"}, bools=("inBallot",))),
@@ -867,6 +876,12 @@ LEAVES = [
     ("C03", "densitySupported", "(totalSat : Rat)", "Bool", test(GRE, "greedy_utilitarian_scheme_additive.satisfaction_density", "total_sat > 0", {"total_sat": "totalSat"})),
     ("C03", "densityValue", "(totalSat cost : Rat)", "Rat",
      exprc(GRE, "greedy_utilitarian_scheme_additive.satisfaction_density", "frac(total_sat", {"total_sat": "totalSat", "proj.cost": "cost"})),
+    # the general path's loop that keeps the projects still fitting after a purchase (statement-level leaf): it is a filter
+    ("C03", "stillFitsLoop", None, None,
+     loop(GRE, "greedy_utilitarian_scheme.aux", "feasible", "stillFitsLoop", "(selected : Nat) (newCost budget : Rat)",
+          [("new_feasible", "kept", "List Nat")], ("project", "Nat × Rat"),
+          {"project != selected_project": "(x.1 != selected)", "new_cost": "newCost", "project.cost": "x.2", "instance.budget_limit": "budget", "project": "x.1"},
+          k=1, bools=("(x.1 != selected)",))),
     # the selection loop of the fast path as a whole (statement-level leaf): order of the test, the append and the update
     ("C03", "passLoop", None, None,
      loop(GRE, "greedy_utilitarian_scheme_additive", "ordered_projects", "passLoop", "",
@@ -927,6 +942,10 @@ LEAVES = [
     ("C18", "meanUpdate", "(mean value n : Rat)", "Rat", assign(UTL, "mean_generator", "mean", {"mean": "mean", "value": "value", "n": "n"}, k=1)),
     ("C18", "giniFormula", "(num cum total : Rat)", "Rat",
      exprc(UTL, "gini_coefficient", "frac(num_values + 1", {"num_values": "num", "total_cum_sum": "cum", "sum(values)": "total"})),
+    # the cumulative loop of `gini_coefficient` (statement-level leaf); `x` = (rank i of the value in the sorted list, the value)
+    ("C18", "giniCumLoop", None, None,
+     loop(UTL, "gini_coefficient", "enumerate(sorted_values)", "giniCumLoop", "(num : Rat)", [("total_cum_sum", "cum", "Rat")], ("(i, v)", "Rat × Rat"),
+          {"v": "x.2", "i": "x.1", "num_values": "num"})),
     ("C18", "giniTerm", "(v num i : Rat)", "Rat", assign(UTL, "gini_coefficient", "total_cum_sum", {"total_cum_sum": "(0 : Rat)", "v": "v", "num_values": "num", "i": "i"}, k=1)),
     ("C18", "histTop", "(s mx : Rat)", "Bool", test(VSAT, "satisfaction_histogram", "satisfaction >= max_satisfaction", {"satisfaction": "s", "max_satisfaction": "mx"})),
     ("C18", "histArg", "(s bins mx : Rat)", "Rat",
